@@ -98,6 +98,8 @@ class LganmRunner:
             W = np.array([[float(fr(x)) for x in row] for row in step["W"]])
             self.caller = [W.astype(dt[step["dtypes"][0]]), np.array([float(fr(x)) for x in step["means"]]).astype(dt[step["dtypes"][1]]),
                            np.array([float(fr(x)) for x in step["variances"]]).astype(dt[step["dtypes"][2]])]
+            from props.gcommon import relayout
+            self.caller = [relayout(a) for a in self.caller]          # C / Fortran order / strided view: all are the caller's arrays
             self.pristine = [a.copy() for a in self.caller]
             self.model = must(lib(self._build, *self.caller), "LGANM(...)")
             self.snapshot = self._attrs(self.model)
@@ -165,7 +167,8 @@ class NormalRunner:
             mean = np.array([float(fr(x)) for x in step["mean"]])
             if step.get("int"):
                 mean, cov = np.round(mean).astype(np.int64), np.round(cov * 4).astype(np.int64)
-            self.caller = [mean, cov]
+            from props.gcommon import relayout
+            self.caller = [relayout(mean), relayout(cov)]
             self.pristine = [a.copy() for a in self.caller]
             self.model = must(lib(sempler.NormalDistribution, *self.caller), "NormalDistribution(...)")
             self.snapshot = _snap([self.model.mean, self.model.covariance, self.model.p])
@@ -176,9 +179,11 @@ class NormalRunner:
         if self.model is None:
             return
         p = self.model.p
-        if op in ("sample", "marginal", "conditional", "regress", "mse"):
+        if op in ("sample", "marginal", "conditional", "regress", "mse", "cond_nothing"):
             idx = [i % p for i in step.get("idx", [0])]
             idx = list(dict.fromkeys(idx))
+            if step.get("identity") and op in ("marginal", "cond_nothing"):
+                idx = list(range(p))              # "all variables, as they are": the result must still be a new object
             if step.get("negative"):
                 idx = [i - p if k % 2 == 0 else i for k, i in enumerate(idx)]      # -1 .. -p are legal numpy indices
             args_store = []
@@ -191,6 +196,9 @@ class NormalRunner:
                     a = np.array(idx, dtype=np.int64) if step.get("as_array") else list(idx)
                     args_store.append(a)
                     return m.marginal(a)
+                if op == "cond_nothing":
+                    a = np.array(idx, dtype=np.int64) if step.get("as_array") else list(idx)
+                    return m.conditional(a, [], [])
                 if op == "conditional":
                     if len(idx) < 2:
                         return None
@@ -316,6 +324,10 @@ class AnmRunner:
             A = np.array([[float(fr(x)) for x in row] for row in step["W"]])
             if step.get("int") and (A == np.round(A)).all():
                 A = A.astype(np.int64)
+            if step.get("dtype"):            # the graph as a 0/1 matrix of another type (an ANM only reads the non-zero pattern)
+                A = (A != 0).astype({"bool": bool, "uint8": np.uint8, "float32": np.float32, "int32": np.int32}[step["dtype"]])
+            from props.gcommon import relayout
+            A = relayout(A)
             self.caller = [A]
             self.pristine = [A.copy()]
             self.model = must(lib(self._build, A), "ANM(...)")
@@ -351,7 +363,7 @@ class AnmRunner:
             if self.n_intervened and self.n_mutations:
                 self.n_queries_after += 1
         elif op == "mutate_caller":
-            self.caller[0] += 1
+            self.caller[0][...] = (self.caller[0] == 0)       # every entry flipped (works for any dtype, bool included)
             if getattr(self, "param_noise", None) is not None:
                 self.param_noise.params += 100.0          # the caller edits the array inside its callable object
             # the caller also edits the lists it passed in
@@ -616,15 +628,16 @@ def _init_normal():
 
 
 def _steps_normal():
-    q = st.fixed_dictionaries({"op": st.sampled_from(["marginal", "conditional", "regress", "mse", "sample"]),
+    q = st.fixed_dictionaries({"op": st.sampled_from(["marginal", "conditional", "regress", "mse", "sample", "cond_nothing"]),
                                "idx": st.lists(st.integers(0, 4), min_size=1, max_size=4), "n": st.sampled_from([1, 3]), "seed": st.integers(0, 5),
-                               "as_array": st.booleans(), "negative": st.booleans()})
+                               "as_array": st.booleans(), "negative": st.booleans(), "identity": st.booleans()})
     return {"query": q, "mutate": st.sampled_from([{"op": "mutate_caller"}, {"op": "scribble"}])}
 
 
 def _init_anm():
     return S.weighted_dag(2, 5, classes=("unit", "smallint", "cancelling")).flatmap(
-        lambda wc: st.fixed_dictionaries({"op": st.just("init"), "W": st.just(wc[0]), "int": st.booleans()}))
+        lambda wc: st.fixed_dictionaries({"op": st.just("init"), "W": st.just(wc[0]), "int": st.booleans(),
+                                          "dtype": st.sampled_from([None, None, None, "bool", "uint8", "float32", "int32"])}))
 
 
 def _steps_anm():
